@@ -460,6 +460,31 @@ def args(rep, c, sfx, trackpath):
                 e = peel(init)
                 if kind(e) == "MethodCall" and e["m"] == "len" and vec_field_of(e["recv"]):
                     saved[pat["id"]] = vec_field_of(e["recv"])
+    # the two indices are saved alike: in every branch of the expression that yields the pair, both components are the
+    # current lengths or both are 0 (attempts recorded at an older position are all dropped when this rule reports) -
+    # (0, neg_attempts.len()) keeps the children's `unexpected` entries next to the rule that should replace them
+    for n in walk(rule["body"]):
+        if n.get("k") == "Let" and n.get("init") is not None and n["pat"].get("k") == "PTuple":
+            for tpl in [peel(x) for x in hirq.tail_leaves(n["init"]) if kind(peel(x)) == "Tup"]:
+                if len(tpl["elems"]) != 2:
+                    continue
+                forms = []
+                for e in tpl["elems"]:
+                    e = peel(e)
+                    if kind(e) == "MethodCall" and e["m"] == "len" and vec_field_of(e["recv"]):
+                        forms.append("len")
+                    elif hirq.lit_value(e) == 0:
+                        forms.append("zero")
+                    else:
+                        forms.append("?")
+                if set(forms) <= {"len", "zero"} and "?" not in forms and any(
+                        vec_field_of(peel(e)["recv"]) for e in tpl["elems"] if kind(peel(e)) == "MethodCall") or forms == ["zero", "zero"]:
+                    r.instance("symmetry:%s" % "+".join(forms), where(tpl))
+                    if forms[0] != forms[1]:
+                        r.violation("symmetry", where(tpl),
+                                    "the saved truncation indices are (%s, %s): one attempt list is cut back to empty, the "
+                                    "other to its current length - rules that matched under `!` inside this rule stay in "
+                                    "`unexpected` beside the rule that replaces them" % tuple(forms))
     sites = [n for n in walk(rule["body"]) if kind(n) == "MethodCall" and n.get("path") == trackpath]
     ctx = hirq.Ctx(rule)
     for n in sites:
